@@ -65,6 +65,13 @@ def cases(tier):
                 for k in scen.KINDS:
                     for d in DESTS:
                         out.append({'dest': d, 'kind': k, 'ow': ow, 'sel': sel, 'sort': so})
+    # unusual names of the entry itself: a decomposed accent (the composed spelling is another directory entry), 240 bytes
+    for so in sorts(tier):
+        for ow in (0, 1):
+            for k in scen.KINDS:
+                for d in ('file', 'ldang', 'lfile'):
+                    for nm in ('cafe\u0301', 'N' * 240):
+                        out.append({'dest': d, 'kind': k, 'ow': ow, 'sel': 'single', 'sort': so, 'name': nm})
     # the same trash directory named explicitly with --trash-dir
     for so in sorts(tier):
         for ow in (0, 1):
@@ -262,7 +269,7 @@ def run_case(c):
         return run_twice(c)
     first = c['sel'] in ('single', 'comma-first', 'range-first')
     multi = c['sel'] != 'single'
-    bname = 'b' if first else 'z'
+    bname = c.get('name') or ('b' if first else 'z')
     bpath = W + '/' + bname
     Wd = scen.base_world()
     scen.add_entry(Wd, bpath, c['kind'])
